@@ -321,3 +321,14 @@ def run(facts, rep, ctx):
     uc1(facts, rep)
     sb5(facts, rep)
     gd7(facts, rep)
+
+
+_run_before_round3 = run
+
+
+def run(facts, rep, ctx):
+    """rules added after the second seeding round, second half (rules/round3.py)"""
+    _run_before_round3(facts, rep, ctx)
+    from . import round3
+    round3.fw1(facts, rep)
+
